@@ -12,6 +12,7 @@ import tokenize
 
 from vcommon import Prop, REPO
 import gen_source
+import gen_c10
 import rewriters as R
 
 
@@ -65,35 +66,53 @@ class C10(Prop):
         ("lib/python/pyflyby/_file.py", "FileText.endpos"),
         ("lib/python/pyflyby/_file.py", "FilePos.__add__"),
     ]
-    quick_cases = 2500
+    quick_cases = 3000
     thorough_cases = 60000
     quick_deadline_s = 60
     thorough_deadline_s = 540
     rule = ("texts from harness/gen_source.py (statement grammar x comments/blank runs/form feeds/semicolons/"
             "continuations/decorators/multi-line strings/f-strings/missing final newline/non-ASCII) x start positions, "
+            "mixed (harness/gen_c10.py) with type comments, match statements of every pattern kind, statements that begin "
+            "with a (multi-line / concatenated / f-) string literal, string-rich expressions and decorated classes; "
             "plus an exhaustive small scope of line templates and (thorough) stdlib/site-packages files; "
-            "a case is non-trivial when the text has >= 2 pieces; distinct by text+start")
+            "plus direct FileText slices (FilePos / tuple / int / open start / single line) at valid and invalid "
+            "positions; a case is non-trivial when the text has >= 2 pieces (a slice: a proper, successful slice); "
+            "distinct by text+start(+positions)")
     trusted_base = ["CPython's parser (`ast`, `tokenize`) defines statement starts, 'parses to the same tree' and literal positions",
                     "modelled, not verified: _annotate_ast_startpos (its output, the node start positions, is an input of the model; "
                     "the oracle recomputes the positions from stdlib ast independently)"]
     assumptions = ["texts are compilable and not uniformly indented (PythonBlock dedents before parsing)",
-                   "the `hasattr(node,'endpos')` branch of _split_code_lines is dead on this tree"]
+                   "the `hasattr(node,'endpos')` branch of _split_code_lines is dead on this tree",
+                   "CPython 3.12: the `sys.version_info < (3,12)` branches and the `col_offset == -1` tail of "
+                   "_annotate_ast_startpos are not executed"]
 
     TEMPLATES = ["x = 1", "import os", "# c", "", "   ", "x = '''a\n# n\n'''", "y = (1 +\n 2)", "z = 1 + \\\n 2",
                  "def f():\n    pass", "@d\ndef g():\n    pass\n    # tail", "if x:\n    pass\n# after", "# bs \\"]
 
+    # second scope: the constructs of harness/gen_c10.py (type comments, match, statements beginning with a string)
+    TEMPLATES2 = ["def f(a):\n    # type: (int) -> str\n    pass", "for i in x:  # type: int\n    pass", "x = []  # type: list",
+                  "# type: ignore", "match x:\n    case {'a': p, 'b': q}:\n        pass\n    case [u, *v] as w:\n        pass",
+                  "match x:\n    case 'a' 'b' | None:\n        pass\n    # mid\n    case _:\n        pass\n    # tail",
+                  "'''a\nb''' + x", "'a' 'b'", "('a'\n 'b').join(x)", "f'{x}' 'lit'", "f'''m\n{x}\n''' % y", "'''a\n#''' '''#\nb'''",
+                  "'a' \\\n 'b'", "@dec('s')\nclass C(B, k='v'):\n    'doc'", "match = 1", "x = 1"]
+
     def exhaustive_cases(self, tier, rng):
         out = []
         seps = ["\n", "; ", "\n\n", "\n# k\n", "  # t\n"]
-        T = self.TEMPLATES
         import itertools
         combos = []
         for n in (1, 2, 3):
-            for items in itertools.product(range(len(T)), repeat=n):
-                combos.append(items)
+            for items in itertools.product(range(len(self.TEMPLATES)), repeat=n):
+                combos.append((self.TEMPLATES, items))
+        combos2 = []
+        for n in (1, 2):
+            for items in itertools.product(range(len(self.TEMPLATES2)), repeat=n):
+                combos2.append((self.TEMPLATES2, items))
         if tier != "thorough":
-            combos = rng.sample(combos, 250)
-        for items in combos:
+            combos = rng.sample(combos, 250) + rng.sample(combos2, 120)
+        else:
+            combos = combos + combos2
+        for T, items in combos:
             seplist = [rng.choice(seps) for _ in items] if tier != "thorough" else None
             variants = [seplist] if seplist else [[s] * len(items) for s in seps]
             for sl in variants:
@@ -138,7 +157,13 @@ class C10(Prop):
         return out
 
     def gen_case(self, rng, i, tier):
-        text, info = gen_source.gen_module(rng, max_items=rng.choice([2, 4, 7]))
+        k = rng.random()
+        if k < 0.08:
+            return gen_c10.gen_slice_case(rng)
+        if k < 0.40:
+            text, info = gen_c10.gen_module(rng, max_items=rng.choice([1, 3, 5]))
+        else:
+            text, info = gen_source.gen_module(rng, max_items=rng.choice([2, 4, 7]))
         r = rng.random()
         if r < 0.7:
             start = [1, 1]
@@ -151,10 +176,16 @@ class C10(Prop):
             c["via_filetext"] = True
         return c
 
+    # unrelated texts parsed between the split of a case's text and the look at its pieces (see run_impl)
+    INTERLEAVED = ["y = 1\n# type: only a remark about y\nz = 2\n", "print(1)  # type: int\n", "    x = 1\n    y = 2\n",
+                   "x = = 1\n", "def f(a):\n    # type: (int) -> str\n    return 'é'  # type: ignore\n"]
+
     # -- implementation ------------------------------------------------------
     def run_impl(self, case):
         from pyflyby._parse import PythonBlock
         from pyflyby._file import FilePos
+        if case.get("kind") == "slice":
+            return self._run_slice(case)
         text, start = case["text"], case["start"]
         obs = {}
         try:
@@ -181,6 +212,9 @@ class C10(Prop):
             except Exception:
                 pass
             sts = blk.statements
+            # was the whole text parsed with type comments?  (pyflyby tries that when the text holds a '# type:' and falls
+            # back to a parse without them when one sits where it is only an ordinary comment)
+            tc = bool(int(blk.flags) & ast.PyCF_TYPE_COMMENTS)
             obs["pieces"] = [dict(text=s.text.joined, start=[s.startpos.lineno, s.startpos.colno],
                                   node=(s.ast_node is not None),
                                   dump=(ast.dump(s.ast_node) if s.ast_node is not None else None))
@@ -188,22 +222,40 @@ class C10(Prop):
             # "each piece parses on its own to the same tree": pyflyby's own parse of the piece alone against the
             # statement's node in the parse of the whole text (type comments aside: whether they are parsed depends
             # on the rest of the text)
-            def _dump(n):
+            def _dump(n, tc=False):
                 # (no deepcopy: pyflyby's annotated nodes carry FilePos objects, whose (1,1) instance is shared)
                 if isinstance(n, ast.AST):
                     return "%s(%s)" % (type(n).__name__, ", ".join(
-                        "%s=%s" % (f, _dump(getattr(n, f, None))) for f in n._fields if f != "type_comment"))
+                        "%s=%s" % (f, _dump(getattr(n, f, None), tc)) for f in n._fields if tc or f != "type_comment"))
                 if isinstance(n, list):
-                    return "[%s]" % ", ".join(map(_dump, n))
+                    return "[%s]" % ", ".join(_dump(x, tc) for x in n)
                 return repr(n)
+            first = [_dump(n, True) for n in blk.ast_node.body]
+            # Between splitting the text and looking at its pieces the process parses unrelated texts that take the
+            # parser's fallback / error paths (a '# type:' remark that is an ordinary comment, an indented snippet, a
+            # syntax error, ...), as any long-running use does (many files, IPython cells): the answers for THIS text
+            # must not depend on what else was parsed.
+            for _t in self.INTERLEAVED:
+                try:
+                    PythonBlock(_t).statements
+                except Exception:
+                    pass
+            again = [_dump(n, True) for n in PythonBlock(text, startpos=FilePos(start[0], start[1])).ast_node.body]
+            if again != first:
+                k = next((i for i, (x, y) in enumerate(zip(first, again)) if x != y), min(len(first), len(again)))
+                obs["repeat_mismatch"] = dict(index=k, first=first[k][:300] if k < len(first) else None,
+                                              again=again[k][:300] if k < len(again) else None)
+            # When the whole text was parsed with type comments, every piece holds only type comments that are legal
+            # where they stand, so its own parse has them too and the trees are compared with their type_comment
+            # fields; otherwise those fields are left out (the whole text's parse has none, a piece's may).
             for i, s in enumerate(sts):
                 if s.ast_node is None:
                     continue
                 try:
                     alone = PythonBlock(s.text.joined, flags=s.flags).ast_node.body
-                    if len(alone) != 1 or _dump(alone[0]) != _dump(s.ast_node):
-                        obs["alone_mismatch"] = dict(index=i, piece=s.text.joined[:200],
-                                                     alone=[_dump(a)[:300] for a in alone], whole=_dump(s.ast_node)[:300])
+                    if len(alone) != 1 or _dump(alone[0], tc) != _dump(s.ast_node, tc):
+                        obs["alone_mismatch"] = dict(index=i, piece=s.text.joined[:200], type_comments=tc,
+                                                     alone=[_dump(a, tc)[:300] for a in alone], whole=_dump(s.ast_node, tc)[:300])
                         break
                 except Exception as e:
                     obs["alone_mismatch"] = dict(index=i, piece=s.text.joined[:200], err=type(e).__name__ + ": " + str(e)[:120])
@@ -240,6 +292,93 @@ class C10(Prop):
             obs["strings_err"] = type(e).__name__ + ": " + str(e)[:150]
         return obs
 
+    # -- direct FileText slicing ----------------------------------------------
+    @staticmethod
+    def _run_slice(case):
+        from pyflyby._file import FilePos, FileText
+        text, start, form, a, b = case["text"], case["start"], case["form"], case["a"], case["b"]
+        try:
+            ft = FileText(text, startpos=FilePos(start[0], start[1]))
+            if form == "pos":
+                r = ft[FilePos(a[0], a[1]):FilePos(b[0], b[1])]
+            elif form == "tuple":
+                r = ft[(a[0], a[1]):(b[0], b[1])]
+            elif form == "int":
+                r = ft[a[0]:b[0]]
+            elif form == "open":
+                r = ft[:FilePos(b[0], b[1])]
+            elif form == "openint":
+                r = ft[:b[0]]
+            elif form == "line":
+                r = ft[a[0]]
+                return dict(line=r) if isinstance(r, str) else dict(slice_err="not a str: " + type(r).__name__)
+            else:
+                raise KeyError(form)
+            if not isinstance(r, FileText):
+                return dict(slice_err="not a FileText: " + type(r).__name__)
+            return dict(slice=dict(text=r.joined, start=[r.startpos.lineno, r.startpos.colno], lines=list(r.lines),
+                                   end=[r.endpos.lineno, r.endpos.colno], same=(r is ft)))
+        except Exception as e:
+            return dict(slice_err=type(e).__name__)
+
+    @staticmethod
+    def _slice_bounds(case):
+        """The two (line, col) bounds that the slice expression denotes.  An int bound n is column index 0 of line n,
+        i.e. the first character of that line: (n, 1), or (n, start column) on the text's first line; an omitted start
+        is the text's start position.  (`text[a:]`, an omitted stop, is not generated: on this tree it raises
+        AssertionError for every text — stop_lineindex = len(lines) fails the range assert — and nothing in pyflyby
+        uses it.)"""
+        start, form, a, b = case["start"], case["form"], list(case["a"]), list(case["b"])
+        col0 = lambda ln: start[1] if ln == start[0] else 1
+        if form in ("int", "line"):
+            a = [a[0], col0(a[0])]
+        if form in ("int", "openint"):
+            b = [b[0], col0(b[0])]
+        if form in ("open", "openint"):
+            a = list(start)
+        return a, b
+
+    @staticmethod
+    def _offset(text, start, pos):
+        """character offset of an existing position of the text, else None (independent of pyflyby: str.split)"""
+        lines = text.split("\n")
+        i = pos[0] - start[0]
+        if not 0 <= i < len(lines):
+            return None
+        c = pos[1] - (start[1] if i == 0 else 1)
+        if not 0 <= c <= len(lines[i]):
+            return None
+        return sum(len(l) + 1 for l in lines[:i]) + c
+
+    def _oracle_slice(self, case, obs):
+        text, start = case["text"], case["start"]
+        if case["form"] == "line":
+            i = case["a"][0] - start[0]
+            lines = text.split("\n")
+            if 0 <= i < len(lines) and obs.get("line") != lines[i]:
+                return [dict(what="FileText[lineno] is not that line", got=obs.get("line", obs.get("slice_err")), want=lines[i],
+                             text=text[:300], start=start, lineno=case["a"][0])]
+            return []
+        a, b = self._slice_bounds(case)
+        oa, ob = self._offset(text, start, a), self._offset(text, start, b)
+        if oa is None or ob is None or oa > ob:
+            return []           # not a range of the text: what happens then is the model's business (K), not the property's
+        if "slice_err" in obs:
+            return [dict(what="slicing a FileText between two of its positions raised", err=obs["slice_err"], a=a, b=b,
+                         form=case["form"], text=text[:300], start=start)]
+        r = obs["slice"]
+        fails = []
+        if r["text"] != text[oa:ob]:
+            fails.append(dict(what="FileText slice does not hold the characters between its bounds", got=r["text"][:120],
+                              want=text[oa:ob][:120], a=a, b=b, form=case["form"], text=text[:300], start=start))
+        if r["start"] != a:
+            fails.append(dict(what="FileText slice reports a start position other than its first character's", got=r["start"],
+                              want=a, b=b, form=case["form"], text=text[:300], start=start))
+        if r["end"] != b or "\n".join(r["lines"]) != r["text"]:
+            fails.append(dict(what="FileText slice: end position / line tuple inconsistent with its text", got=r["end"], want=b,
+                              a=a, form=case["form"], text=text[:300], start=start))
+        return fails
+
     # -- independent facts about the input -----------------------------------
     def _starts(self, case):
         text, start = case["text"], case["start"]
@@ -263,6 +402,8 @@ class C10(Prop):
 
     # -- oracle --------------------------------------------------------------
     def oracle(self, case, obs):
+        if case.get("kind") == "slice":
+            return self._oracle_slice(case, obs)
         fails = []
         text, start = case["text"], case["start"]
         if "err" in obs:
@@ -279,6 +420,9 @@ class C10(Prop):
         if "alone_mismatch" in obs:
             fails.append(dict(what="a piece parsed on its own differs from its statement in the whole text",
                               text=text[:300], start=start, **obs["alone_mismatch"]))
+        if "repeat_mismatch" in obs:
+            fails.append(dict(what="a second parse of the same text (after unrelated texts were parsed) gives a different tree",
+                              text=text[:300], start=start, **obs["repeat_mismatch"]))
         body = tree.body
         node_pieces = [p for p in pieces if p["node"]]
         if len(node_pieces) != len(body):
@@ -352,6 +496,11 @@ class C10(Prop):
 
     # -- model ---------------------------------------------------------------
     def model_requests(self, case, obs):
+        if case.get("kind") == "slice":
+            if case["form"] == "line":
+                return []       # O-only: a single line is not a slice of the model (FText.slice); judged by _oracle_slice
+            a, b = self._slice_bounds(case)
+            return [dict(op="slice", text=case["text"], start=case["start"], a=a, b=b)]
         if len(case["text"]) > 20000 or R.layout_family(case["text"]):
             return []        # (listed findings D59/D60: the implementation's line structure is wrong on these layouts)
         try:
@@ -365,6 +514,15 @@ class C10(Prop):
         return reqs
 
     def compare(self, case, obs, resps):
+        if case.get("kind") == "slice":
+            r = resps[0]
+            if "slice_err" in obs:
+                return None if r.get("err") == obs["slice_err"] else f"slice: impl raised {obs['slice_err']}, model {r}"
+            if "err" in r:
+                return f"slice: model error {r['err']}, impl returned {obs['slice']['text'][:60]!r}"
+            if (r.get("ok"), r.get("start")) != (obs["slice"]["text"], obs["slice"]["start"]):
+                return f"slice: impl=({obs['slice']['text'][:60]!r}, {obs['slice']['start']}) model=({r.get('ok', '')[:60]!r}, {r.get('start')})"
+            return None
         if "charcol_err" in obs:
             return "column conversion raised: " + obs["charcol_err"]
         for c, rr in zip(obs.get("charcol", []), resps[1:]):
@@ -392,17 +550,32 @@ class C10(Prop):
         return None
 
     def nontrivial_key(self, case, obs):
+        if case.get("kind") == "slice":
+            if ("slice" in obs and not obs["slice"]["same"]) or "line" in obs:
+                return (case["text"], tuple(case["start"]), case["form"], tuple(case["a"]), tuple(case["b"]))
+            return None
         if "pieces" in obs and len(obs["pieces"]) >= 2:
             return (case["text"], tuple(case["start"]))
         return None
 
     def sample_repr(self, case, obs):
+        if case.get("kind") == "slice":
+            return dict(text=case["text"][:200], start=case["start"], form=case["form"], a=case["a"], b=case["b"],
+                        result={k: v for k, v in obs.items()})
         return dict(text=case["text"][:200], start=case["start"],
                     pieces=[[p["text"][:40], p["start"], p["node"]] for p in obs.get("pieces", [])][:8])
 
     def stats(self, case, obs, acc):
         acc["cases_from_" + case.get("_src", "?")] = acc.get("cases_from_" + case.get("_src", "?"), 0) + 1
         t = case["text"]
+        if case.get("kind") == "slice":
+            k = "slice_" + case["form"] + ("_err" if "slice_err" in obs else "")
+            acc[k] = acc.get(k, 0) + 1
+            return
+        for k, cond in (("type_comment", re.search(r"#\s*type:", t) is not None), ("match_stmt", re.search(r"(^|\n)match .*:", t) is not None),
+                        ("string_first", re.search(r"(^|\n)[rbfuRBFU]{0,2}['\"]", t) is not None)):
+            if cond:
+                acc[k] = acc.get(k, 0) + 1
         for k, cond in (("no_final_newline", not t.endswith("\n")), ("nonascii", any(ord(c) > 127 for c in t)),
                         ("semicolon", ";" in t), ("backslash", "\\\n" in t), ("triple_quote", "'''" in t or '"""' in t),
                         ("decorator", "\n@" in t or t.startswith("@")), ("formfeed", "\f" in t),
